@@ -1,9 +1,237 @@
-/- C16 driver: not written yet -/
+/-
+  C16 driver: replays what the real library did (harness/oracle.cpp output) through the model of
+  LibfiveModel/Oracle.lean:
+    * the bind / push / unbind protocol: every context a wrapped oracle reported being bound to
+      (`wev` lines, logged by the harness' own Oracle subclass) is predicted by `DeckM.eval` /
+      `DeckM.push`; the contexts vector of every pushed tape (`tr tctx`) equals the model's; after
+      every call the deck is `balanced` and the real oracles are unbound (`tr unbound`);
+    * the Jacobian mapping of gradients (`jac` lines): `jmul` on the dumped coordinate gradients and
+      inner gradient against what `TransformedOracle` returned.
+  Output: `ok <what>` / `MISMATCH <what> ...` / `skip ...`, one line per observation.
+-/
 import Driver.Parse
+import LibfiveModel.Oracle
+open Libfive Libfive.OracleM
 
 namespace Driver.C16
 
-def run (_args : List String) (lines : Array String) : Array String :=
-  #[s!"MISMATCH driver-not-implemented {lines.size}"]
+def Ctx.render : Ctx → String
+  | .null => "-"
+  | .user id => s!"c{id}"
+  | .trans _ => "x"
+
+def parseCtxName (s : String) : Ctx :=
+  if s == "-" then .null
+  else if s.startsWith "c" then .user (nat! (s.drop 1).toString)
+  else .trans .null
+
+structure Pending where
+  op : String
+  t : Nat
+  term : Bool
+  events : List (List String)
+  newId : Nat := 0
+  same : Bool := false
+  tctx : List String := []
+
+structure St where
+  case : String := ""
+  kinds : Array (Bool × Nat) := #[]          -- per oracle: (is TransformedOracle, main-path instance)
+  deck : DeckM := { orcs := [], tapes := [] }
+  tapes : List (Nat × TapeM) := []
+  cur : Option Pending := none
+  waiting : Option Pending := none           -- a finished push awaiting its `pushed tape` line
+  lastTctx : List String := []
+  step : Nat := 0
+
+def St.tape (st : St) (id : Nat) : TapeM := ((st.tapes.find? (·.1 == id)).map (·.2)).getD default
+
+/-- oracle indices of the ORACLE clauses of a tape, in storage order -/
+def oracleKs (T : TapeM) : List Nat := (T.t.filter (·.op == Op.oracle)).map (·.a)
+
+def St.instK (st : St) (inst : Nat) : Option Nat :=
+  (List.range st.kinds.size).find? fun k => (st.kinds.getD k (false, 0)).2 == inst
+
+/-- observed events of main-path instances with one of the given kinds: (k, words) -/
+def St.observed (st : St) (evs : List (List String)) (kinds : List String) : List (Nat × List String) :=
+  evs.filterMap fun w =>
+    match w with
+    | _ :: inst :: kind :: _ =>
+      if kinds.contains kind then (st.instK (nat! inst)).map fun k => (k, w) else none
+    | _ => none
+
+def renderSeen (l : List (Nat × Ctx)) : String :=
+  " ".intercalate (l.map fun (k, c) => s!"{k}:{Ctx.render c}")
+
+def renderObs (l : List (Nat × List String)) : String :=
+  " ".intercalate (l.map fun (k, w) => s!"{k}:{w.getD 3 "?"}")
+
+def cmp (what tag : String) (model real : String) : String :=
+  if model == real then s!"ok {what} {tag}" else s!"MISMATCH {what} {tag} model [{model}] real [{real}]"
+
+def f32! (s : String) : Float32 := (F32.parseF32 s).getD (Float32.ofBits 0x7fc00000)
+
+/-- evaluation-type call on tape `t`: compare what the oracles saw -/
+def checkEval (st : St) (t : Nat) (isInterval : Bool) (evs : List (List String)) (kinds : List String)
+    (tag : String) : St × List String :=
+  let ks := (oracleKs (st.tape t)).reverse
+  let r := st.deck.eval t ks isInterval
+  let obs := st.observed evs kinds
+  ({ st with deck := r.1 }, [cmp ("seen-" ++ (kinds.headD "?")) tag (renderSeen r.2) (renderObs obs)])
+
+def finishPush (st : St) (p : Pending) (newTape : TapeM) : St × List String :=
+  let tag := s!"case {st.case} step {st.step} {p.op} T{p.t}->T{p.newId}"
+  let isInterval := p.op == "ipush"
+  -- 1. the evaluation half
+  let (st, o1) := checkEval st p.t isInterval p.events [if isInterval then "interval" else "array"] tag
+  -- 2. the push half
+  let pushObs := (st.observed p.events ["push"]).filter fun (_, w) => w.length ≥ 6
+  if p.term then
+    let o2 := if pushObs.isEmpty && p.same then s!"ok terminal-no-push {tag}" else
+      s!"MISMATCH terminal-no-push {tag} pushes {pushObs.length} same {p.same}"
+    (st, o1 ++ [o2])
+  else
+    let ks := if p.same then (pushObs.map (·.1)) else oracleKs newTape
+    let ans : Nat → Ctx → Ctx := fun k _ =>
+      match pushObs.find? (·.1 == k) with
+      | some (_, w) => parseCtxName (w.getD 5 "-")
+      | none => .null
+    let r := st.deck.push p.t ks isInterval ans (!p.same)
+    let seenM := renderSeen r.2.2
+    let seenR := " ".intercalate (pushObs.map fun (k, w) => s!"{k}:{w.getD 4 "?"}")
+    let o2 := cmp "seen-push" tag seenM seenR
+    let ctxM := " ".intercalate (r.2.1.map Ctx.render)
+    let ctxR := " ".intercalate p.tctx
+    -- an unchanged tape is returned as is and keeps its own contexts
+    let o3 := if p.same then
+        cmp "tape-contexts-unchanged" tag (" ".intercalate ((st.deck.tapeCtx p.t).map Ctx.render)) ctxR
+      else cmp "tape-contexts" tag ctxM ctxR
+    let o4 := if r.1.balanced then s!"ok balanced {tag}" else s!"MISMATCH balanced {tag}"
+    -- oracle clauses survive specialisation untouched
+    let parentOr := (st.tape p.t).t.filter (·.op == Op.oracle)
+    let o5 := if (newTape.t.filter (·.op == Op.oracle)).all (fun c => parentOr.contains c) && wfb newTape.t
+      then s!"ok oracle-clauses-kept {tag}" else s!"MISMATCH oracle-clauses-kept {tag}"
+    let st := { st with deck := r.1,
+                        tapes := if p.same then st.tapes else st.tapes ++ [(p.newId, newTape)] }
+    (st, o1 ++ [o2, o3, o4, o5])
+
+def absF (x : Float) : Float := if x < 0 then -x else x
+
+def jacCheck (st : St) (ws : List String) : List String := Id.run do
+  let n := nat! (ws.getD 0 "0")
+  let a := (ws.drop 1).toArray
+  let mut out : List String := []
+  for i in [0:n] do
+    let g (j c : Nat) : Float32 := f32! (a.getD (21 * i + 4 * j + c) "7fc00000")
+    let amb := a.getD (21 * i + 20) "0" == "1"
+    let v (j : Nat) : V3 Float32 := ⟨g j 0, g j 1, g j 2⟩
+    let m := jmul (v 0) (v 1) (v 2) (v 3)
+    let real := v 4
+    let tag := s!"case {st.case} jac {i}"
+    let mag (c : Nat) : Float :=
+      absF ((g 0 c).toFloat * (g 3 0).toFloat) + absF ((g 1 c).toFloat * (g 3 1).toFloat) +
+        absF ((g 2 c).toFloat * (g 3 2).toFloat)
+    let close (x y : Float32) (s : Float) : Bool :=
+      x.toBits == y.toBits || (x.isNaN && y.isNaN) || absF (x.toFloat - y.toFloat) ≤ 1e-5 * s + 1e-30
+    let exact := m.x.toBits == real.x.toBits && m.y.toBits == real.y.toBits && m.z.toBits == real.z.toBits
+    let okG := close m.x real.x (mag 0) && close m.y real.y (mag 1) && close m.z real.z (mag 2)
+    let anyNaN := m.x.isNaN || m.y.isNaN || m.z.isNaN || real.x.isNaN || real.y.isNaN || real.z.isNaN
+    if amb then out := out ++ [s!"skip ambiguous {tag}"]
+    else if anyNaN && !okG then out := out ++ [s!"skip nan {tag}"]
+    else if okG then out := out ++ [s!"ok jacobian{if exact then "-exact" else ""} {tag}"]
+    else out := out ++ [s!"MISMATCH jacobian {tag} model {F32.toHex m.x} {F32.toHex m.y} {F32.toHex m.z} real {F32.toHex real.x} {F32.toHex real.y} {F32.toHex real.z}"]
+    -- the value the transformed oracle returns is the inner value at the transformed point
+    let ve := g 3 3
+    let vt := g 4 3
+    if ve.toBits == vt.toBits || (ve.isNaN && vt.isNaN) then out := out ++ [s!"ok tvalue-exact {tag}"]
+    else if absF (ve.toFloat - vt.toFloat) ≤ 1e-4 * (absF ve.toFloat + absF vt.toFloat) + 1e-30 then
+      out := out ++ [s!"ok tvalue {tag}"]
+    else out := out ++ [s!"skip tvalue-differs {tag} inner {F32.toHex ve} transformed {F32.toHex vt}"]
+  return out
+
+def handle (st : St) (line : String) : St × List String :=
+  let ws := words line
+  match ws with
+  | "case" :: k :: _ => ({ case := k }, [])
+  | "tr" :: "deck" :: _ :: rest =>
+    let kinds := rest.toArray.map fun s =>
+      match s.splitOn ":" with
+      | [k, i] => (k == "trans", if i == "-1" then 1000000 else nat! i)
+      | _ => (false, 1000000)
+    let orcs := kinds.toList.map fun (tr, _) => if tr then Orc.trans .null (Orc.user .null) else Orc.user .null
+    let d := DeckM.init orcs
+    ({ st with kinds := kinds, deck := d },
+     [if d.balanced then s!"ok balanced case {st.case} init" else s!"MISMATCH balanced case {st.case} init"])
+  | "base" :: "tape" :: rest =>
+    match parseTape rest with
+    | some T => ({ st with tapes := [(0, T)] },
+        [if wfb T.t then s!"ok wf case {st.case}" else s!"MISMATCH wf case {st.case}"])
+    | none => (st, [s!"MISMATCH parse case {st.case} base"])
+  | "tr" :: "tctx" :: tid :: nctx :: norc :: names =>
+    let tag := s!"case {st.case} step {st.step} {tid}"
+    let o := if nat! nctx == nat! norc && nat! norc == st.kinds.size then s!"ok one-context-per-oracle {tag}"
+      else s!"MISMATCH one-context-per-oracle {tag} contexts {nctx} oracles {norc}"
+    match st.waiting with
+    | some p => ({ st with waiting := some { p with tctx := names } }, [o])
+    | none =>
+      -- base tape: all null
+      let m := " ".intercalate ((st.deck.tapeCtx 0).map Ctx.render)
+      (st, [o, cmp "tape-contexts" tag m (" ".intercalate names)])
+  | "tr" :: "begin" :: op :: tid :: rest =>
+    ({ st with cur := some { op := op, t := nat! (tid.drop 1).toString, term := rest.headD "0" == "1", events := [] },
+               step := st.step + 1 }, [])
+  | "wev" :: _ =>
+    match st.cur with
+    | some p => ({ st with cur := some { p with events := p.events ++ [ws] } }, [])
+    | none => (st, [])
+  | "tr" :: "end" :: op :: rest =>
+    match st.cur with
+    | none => (st, [s!"MISMATCH protocol case {st.case} end-without-begin"])
+    | some p =>
+      let tag := s!"case {st.case} step {st.step} {op} T{p.t}"
+      let st := { st with cur := none }
+      if op == "eval" then
+        let (st, o1) := checkEval st p.t false p.events ["array"] tag
+        let hasD := !(st.observed p.events ["derivs"]).isEmpty
+        if hasD then
+          let (st, o2) := checkEval st p.t false p.events ["derivs"] tag
+          (st, o1 ++ o2)
+        else (st, o1)
+      else if op == "ieval" then checkEval st p.t true p.events ["interval"] tag
+      else if op == "feat" then
+        let (st, o1) := checkEval st p.t false p.events ["array"] tag
+        -- features are evaluated on the tape returned by valueAndPush: the tape itself when it is
+        -- terminal, otherwise every oracle still active got `push(SPECIALIZED)` -> a null context
+        let obs := st.observed p.events ["features"]
+        let exp : List (Nat × Ctx) := obs.map fun (k, _) =>
+          if p.term then
+            let c := (st.deck.tapeCtx p.t).getD k .null
+            (k, if (st.kinds.getD k (false, 0)).1 then c.under else c)
+          else (k, .null)
+        (st, o1 ++ [cmp "seen-features" tag (renderSeen exp) (renderObs obs)])
+      else
+        -- ipush / ppush: wait for the dumped tape
+        let same := rest.getD 1 "0" == "1"
+        ({ st with waiting := some { p with newId := nat! ((rest.getD 0 "T0").drop 1).toString, same := same } }, [])
+  | "tr" :: "unbound" :: _ :: nb :: top :: _ =>
+    let tag := s!"case {st.case} step {st.step}"
+    let o1 := if nb == "0" && top == "0" then s!"ok unbound {tag}" else s!"MISMATCH unbound {tag} wrapped-bound {nb} deck-bound {top}"
+    let o2 := if st.waiting.isSome || st.deck.balanced then [] else [s!"MISMATCH balanced {tag}"]
+    (st, o1 :: o2)
+  | "pushed" :: "tape" :: rest =>
+    match parseTape rest, st.waiting with
+    | some T, some p => finishPush { st with waiting := none } p T
+    | _, _ => (st, [s!"MISMATCH parse case {st.case} pushed"])
+  | "jac" :: rest => (st, jacCheck st rest)
+  | _ => (st, [])
+
+def run (_args : List String) (lines : Array String) : Array String := Id.run do
+  let mut st : St := {}
+  let mut out : Array String := #[]
+  for l in lines do
+    let (st', o) := handle st l
+    st := st'
+    for x in o do out := out.push x
+  return out
 
 end Driver.C16
